@@ -31,6 +31,8 @@ import Lattigo.Proofs.GadgetIdentity
 import Lattigo.Proofs.KeySwitch
 import Lattigo.Proofs.KeySwitchHoisted
 import Lattigo.Proofs.KeySwitchDigits
+import Lattigo.Props.C04Ring
+import Lattigo.Props.C04Noise
 import Mathlib.Data.ZMod.Basic
 import Mathlib.Tactic.NormNum
 
